@@ -3,6 +3,7 @@ package rules
 import (
 	"fmt"
 	"go/token"
+	"regexp"
 	"strings"
 
 	"golang.org/x/tools/go/ssa"
@@ -29,6 +30,7 @@ func c07(c *Ctx) {
 		"(retry) the keyset-level reader rewinds the replay buffer on every path on which a candidate key consumed input and failed, before the next candidate is tried, and reports failure when no candidate matched. " +
 		"(buffered) every segment the writer hands to the segment encrypter is its own buffer from offset 0 (to plaintextPos in Close), or caller memory only under a dominating plaintextPos == 0 — bytes buffered by earlier calls cannot be skipped. " +
 		"(fullread) no Read on an underlying reader has its byte count discarded; (replay) the replaying wrapper of the keyset-level reader records everything it reads while replay is enabled, on every return path. " +
+		"(params) at every call of the subtle streaming constructors each format parameter is fed from the key parameters' accessor of the same meaning (derived key size, HKDF hash, HMAC hash and tag size, segment size; first segment offset 0; main key from the key bytes) — confirmed table. " +
 		"Not decided: buffer arithmetic across call boundaries (chunking independence), format interoperability."
 	c07SegAuth(c)
 	c07Release(c)
@@ -39,6 +41,7 @@ func c07(c *Ctx) {
 	c07Buffered(c)
 	c07FullRead(c)
 	c07Replay(c)
+	c07Params(c)
 }
 
 func c07SegAuth(c *Ctx) {
@@ -768,4 +771,95 @@ func c07Retry(c *Ctx) {
 		}
 	}
 	r.Check(okFail, "C07.retry", "C07.retry/decryptReader.Read/no match is an error", p.FuncPos(f), "when no key matches, Read does not return an error", "errKeyNotFound after the loop")
+}
+
+// c07Params: the streaming wire format (header length, segment key size, tag
+// size, segment size) is fixed by the arguments of subtle.NewAESGCMHKDF /
+// NewAESCTRHMAC. At every call site in product code each of them must come
+// from the key-parameters accessor of the same meaning. The table was read off
+// the two key types (and agrees between them); the accessor is matched by the
+// words in its name, through conversions, String() and field loads.
+func c07Params(c *Ctx) {
+	p, r := c.P, c.R
+	want := map[string]string{ // parameter of the subtle constructor -> words required in the source chain
+		"mainKey":               `keybytes|keyvalue|keymaterial`,
+		"hkdfAlg":               `hkdf.*hash`,
+		"keySizeInBytes":        `derivedkeysize`,
+		"tagAlg":                `hmac.*hash`,
+		"tagSizeInBytes":        `tagsize`,
+		"ciphertextSegmentSize": `segmentsize`,
+	}
+	chain := func(v ssa.Value) []string {
+		var out []string
+		for i := 0; i < 8; i++ {
+			v = guard.Strip(v)
+			if cv, ok := v.(*ssa.Convert); ok {
+				v = cv.X
+				continue
+			}
+			if call, _ := guard.CallOf(v); call != nil {
+				if g := call.Call.StaticCallee(); g != nil && len(call.Call.Args) > 0 {
+					out = append(out, g.Name())
+					v = call.Call.Args[0]
+					continue
+				}
+				if call.Call.IsInvoke() {
+					out = append(out, call.Call.Method.Name())
+					v = call.Call.Value
+					continue
+				}
+				break
+			}
+			if b, fld, ok := guard.FieldOf(v); ok {
+				out = append(out, fld)
+				v = b
+				continue
+			}
+			break
+		}
+		return out
+	}
+	n := 0
+	for _, f := range p.SortedFuncs(core.Product) {
+		allInstrs(f, func(ins ssa.Instruction) {
+			call, ok := ins.(*ssa.Call)
+			if !ok {
+				return
+			}
+			g := call.Call.StaticCallee()
+			if g == nil || core.Rel(core.PkgOf(g)) != "streamingaead/subtle" || (g.Name() != "NewAESGCMHKDF" && g.Name() != "NewAESCTRHMAC") {
+				return
+			}
+			n++
+			for i, prm := range g.Params {
+				if i >= len(call.Call.Args) {
+					continue
+				}
+				key := fmt.Sprintf("C07.params/%s/%s.%s", core.FuncID(f), g.Name(), prm.Name())
+				arg := call.Call.Args[i]
+				if prm.Name() == "firstSegmentOffset" {
+					k, isK := guard.ConstInt(arg)
+					r.Check(isK && k == 0, "C07.params", key, p.Pos(call.Pos()), "the first segment offset handed to the streaming constructor is not the constant 0 of the key types' format", "= 0")
+					continue
+				}
+				re, has := want[prm.Name()]
+				if !has {
+					r.Unknown("C07.params", key, p.Pos(call.Pos()), "parameter "+prm.Name()+" of "+g.Name()+" is not in the confirmed table")
+					continue
+				}
+				ch := chain(arg)
+				okArg := false
+				for _, nme := range ch {
+					if regexp.MustCompile(re).MatchString(strings.ToLower(nme)) {
+						okArg = true
+					}
+				}
+				r.Check(okArg, "C07.params", key, p.Pos(call.Pos()),
+					fmt.Sprintf("%s of %s is fed from %v, not from the key parameter of the same meaning (/%s/): header length and segment keys would differ from the format of this key type", prm.Name(), g.Name(), ch, re),
+					fmt.Sprintf("from %v", ch))
+			}
+		})
+	}
+	r.Counts["streaming_constructor_sites"] = n
+	r.Min("C07.params", 8)
 }
